@@ -61,7 +61,9 @@ def scenario_for(inp, k, workdir):
     sp = {"in_stack": {"thread_sp": 0}, "guard": {"thread_stack": 0, "off": -24}, "unmapped": "0x10000", "top_page": hex(U64 - 7), "misaligned": {"thread_sp": 0, "off": 3}, "zero": 0,
           "reserved_tail": {"file_map": 0, "off": 0x3000 + 0x4000 + 0x128}}
     ip = {"interior": {"region": "code", "off": 300}, "first_bytes": {"region_map": "code", "off": 5}, "last_bytes": {"region_map_end": "code", "off": -3},
-          "unmapped": "0x20000", "zero": 0, "max": hex(U64)}
+          "unmapped": "0x20000", "zero": 0, "max": hex(U64), "page_zero": "0x10"}
+    if inp["ip"] == "page_zero":
+        tgt["regions"].append({"name": "zero", "page_zero": True, "exec": True})
     if inp["sp"] != "none" or inp["ip"] != "interior":
         w["crash_context"] = {"sp": sp.get(inp["sp"], {"thread_sp": 0}), "ip": ip[inp["ip"]]}
     if inp["sp"] == "reserved_tail":
@@ -76,6 +78,8 @@ def scenario_for(inp, k, workdir):
 
 def c02(ck):
     quick = ck.tier == "quick"
+    util.apalache_inductive(ck, "IpWindowAp", "the bounds of the memory window around the crashing instruction for any word size, mapping and instruction pointer: no overflow (C02), the window is the part of [ip - 128, ip + 128) inside the mapping (C07)",
+                            obligations=[("Init", "C02_NoPanic", 0), ("Init", "C07_Window", 0)])
     util.mc_design(ck, "MC_Totality", "MC_Totality_vfork", "the same steps for targets with a thread sleeping in vfork(): the wait for that thread's stop (known finding D22: it has no bound)",
                    workers=2, timeout=600)
     util.mc_design(ck, "MC_Totality", "MC_Totality", "every input that differs from a benign base in at most two of thirteen dimensions (a thread in vfork(), caller's stop timeout, caller-supplied mapping, requested memory region, crash SP/IP class, AT_PHNUM/AT_PHDR class, PT_LOAD vaddr, dynamic section, link_map list shape, mapped-file name and content class) through the steps of a dump; invariants Total, NoDevOpen, WalkBounded; liveness Terminates (the link_map walk)",
